@@ -1,22 +1,22 @@
 #!/bin/bash
 # usage: tools/eval_seed_a.sh <ID> <mN> "<demo cmd>"  -> verifies in the scratch worktree, writes /tmp/seed/<ID>.<mN>.verify.json
 ID="$1"; M="$2"; DEMO="$3"
-wt=/tmp/seed/$ID; src=$wt/seeded/$M
+SEEDROOT=${SEEDROOT:-/tmp/seed}; wt=$SEEDROOT/$ID; src=$wt/seeded/$M
 export GOFLAGS=-mod=mod GOPROXY=off GOSUMDB=off GOTOOLCHAIN=local
 cd "$wt" || exit 2
 git checkout -- . 2>/dev/null
-bash -c "$DEMO" > /tmp/seed/$ID.$M.demo_clean.log 2>&1; demo_clean=$?
+bash -c "$DEMO" > $SEEDROOT/$ID.$M.demo_clean.log 2>&1; demo_clean=$?
 git checkout -- . 2>/dev/null; git clean -fdq -e seeded >/dev/null 2>&1
-if ! git apply "$src/patch.diff"; then echo "{\"id\":\"$ID-$M\",\"error\":\"patch does not apply\"}" > /tmp/seed/$ID.$M.verify.json; exit 2; fi
-go build ./... > /tmp/seed/$ID.$M.build.log 2>&1; build=$?
+if ! git apply "$src/patch.diff"; then echo "{\"id\":\"$ID-$M\",\"error\":\"patch does not apply\"}" > $SEEDROOT/$ID.$M.verify.json; exit 2; fi
+go build ./... > $SEEDROOT/$ID.$M.build.log 2>&1; build=$?
 suite=1
 for attempt in 1 2 3; do
-  go test -vet=off -count=1 ./... > /tmp/seed/$ID.$M.suite.log 2>&1; suite=$?
+  go test -vet=off -count=1 ./... > $SEEDROOT/$ID.$M.suite.log 2>&1; suite=$?
   [ $suite -eq 0 ] && break
   # the pinned suite has two load/randomness-sensitive segment tests; only those may fail
-  if grep -E "^--- FAIL" /tmp/seed/$ID.$M.suite.log | grep -vqE "TestConcurrentReadersAndWriter|TestFrameCodecFuzz"; then break; fi
+  if grep -E "^--- FAIL" $SEEDROOT/$ID.$M.suite.log | grep -vqE "TestConcurrentReadersAndWriter|TestFrameCodecFuzz"; then break; fi
 done
-bash -c "$DEMO" > /tmp/seed/$ID.$M.demo_mut.log 2>&1; demo_mut=$?
+bash -c "$DEMO" > $SEEDROOT/$ID.$M.demo_mut.log 2>&1; demo_mut=$?
 git checkout -- . ; git clean -fdq -e seeded >/dev/null 2>&1
-echo "{\"id\":\"$ID-$M\",\"build\":$build,\"suite\":$suite,\"demo_clean\":$demo_clean,\"demo_mut\":$demo_mut,\"suite_fail\":\"$(grep -E '^--- FAIL' /tmp/seed/$ID.$M.suite.log | head -3 | tr '\n' ' ' | tr -d '"')\"}" > /tmp/seed/$ID.$M.verify.json
-cat /tmp/seed/$ID.$M.verify.json
+echo "{\"id\":\"$ID-$M\",\"build\":$build,\"suite\":$suite,\"demo_clean\":$demo_clean,\"demo_mut\":$demo_mut,\"suite_fail\":\"$(grep -E '^--- FAIL' $SEEDROOT/$ID.$M.suite.log | head -3 | tr '\n' ' ' | tr -d '"')\"}" > $SEEDROOT/$ID.$M.verify.json
+cat $SEEDROOT/$ID.$M.verify.json
